@@ -4,14 +4,15 @@
 From V Require Export TLSConfig.
 
 (* The identity the caller asks to present: the certificate (the file form wins over the loaded form, as
-   documented) together with the key given in the same form. None: no certificate supplied (a key alone
-   requests nothing). *)
-Definition supplied_identity (o : opts) : option (nat * option nat) :=
+   documented) together with the key given in the same form. The certificate is everything that was handed over:
+   EVERY certificate block of the file, in file order (leaf, then the intermediates a server needs to build the
+   path), or the one loaded certificate. None: no certificate supplied (a key alone requests nothing). *)
+Definition supplied_identity (e : env) (o : opts) : option (list nat * option nat) :=
   match o_cert_file o with
-  | Some cf => Some (cf, o_key_file o)
+  | Some cf => Some (file_chain e cf, o_key_file o)
   | None =>
     match o_loaded_cert o with
-    | Some lc => Some (lc, option_map snd (o_loaded_key o))
+    | Some lc => Some ([lc], option_map snd (o_loaded_key o))
     | None => None
     end
   end.
@@ -79,7 +80,7 @@ Definition roots_eqb (a b : roots) : bool :=
   end.
 
 Definition opt_nat_eqb := opt_eqb Nat.eqb.
-Definition pair_eqb (a b : nat * nat) : bool := Nat.eqb (fst a) (fst b) && Nat.eqb (snd a) (snd b).
+Definition pair_eqb (a b : list nat * nat) : bool := bytes_eqb (fst a) (fst b) && Nat.eqb (snd a) (snd b).
 
 Definition min_ok (c : config) : bool := tls12 <=? c_min_version c.
 Definition insecure_ok (o : opts) (c : config) : bool :=
@@ -90,7 +91,7 @@ Definition passthrough_ok (o : opts) (c : config) : bool :=
   bytes_eqb (c_server_name c) (o_server_name o) && opt_nat_eqb (c_callback c) (o_callback o) &&
   Bool.eqb (c_tickets_disabled c) (o_tickets_disabled o) && opt_nat_eqb (c_cache c) (o_cache o).
 Definition certs_ok (e : env) (o : opts) (c : config) : bool :=
-  match supplied_identity o with
+  match supplied_identity e o with
   | None => match c_certs c with [] => true | _ => false end
   | Some (ce, Some k) => usable e o && list_eqb pair_eqb (c_certs c) [(ce, k)]
   | Some (_, None) => false
@@ -102,3 +103,7 @@ Definition c18_holds (e : env) (o : opts) (r : result) : bool :=
   | Config c => min_ok c && insecure_ok o c && roots_ok e o c && passthrough_ok o c && certs_ok e o c
   | Error _ => true
   end.
+
+(* a sequence of calls: every call, judged on the material of its moment *)
+Definition c18_history_holds (h : list (env * opts)) (rs : list result) : bool :=
+  list_eqb (fun p r => c18_holds (fst p) (snd p) r) h rs.
